@@ -47,16 +47,21 @@ func (s *sys) snapshot() snap {
 		sn.voting = s.eng.lastVoting.Clone()
 		sn.committing = s.eng.lastCommitting.Clone()
 	} else if s.m != nil {
+		// The destination views are reused from poll to poll, as the API documents callers should do.
 		r := s.call("VotingView", func(ctx context.Context) string {
-			if err := s.m.VotingView(ctx, &sn.voting); err != nil {
+			if err := s.m.VotingView(ctx, &s.pollV); err != nil {
 				return "err"
 			}
-			if err := s.m.CommittingView(ctx, &sn.committing); err != nil {
+			if err := s.m.CommittingView(ctx, &s.pollC); err != nil {
 				return "err"
 			}
 			return "ok"
 		})
 		sn.ok = r == "ok"
+		if sn.ok {
+			sn.voting = s.pollV.Clone()
+			sn.committing = s.pollC.Clone()
+		}
 	}
 	vh, vr, ch, cr, err := s.st.ms.NetworkHeightRound(ctx)
 	sn.nhr = [4]uint64{vh, uint64(vr), ch, uint64(cr)}
